@@ -38,6 +38,7 @@ type Case struct {
 	Kind    string   `json:"kind"` // serve | helper | func
 	Tap     bool     `json:"tap,omitempty"`
 	Setup   []string `json:"setup,omitempty"`
+	Bare    bool     `json:"bare,omitempty"` // the session's local address is a bare JID
 	Seq     []string `json:"seq,omitempty"`
 	End     string   `json:"end,omitempty"` // close | eof
 	Helper  string   `json:"helper,omitempty"`
@@ -174,6 +175,9 @@ func (w *world) setup(ops []string) {
 			}
 		case "ibb-listen":
 			l := w.ibbh.Listen(w.sess)
+			w.lst, w.lstOpen = l, true
+			w.note("ALListen")
+			w.note("ALAcceptor")
 			go func() {
 				for {
 					c, err := l.Accept()
@@ -184,7 +188,8 @@ func (w *world) setup(ops []string) {
 				}
 			}()
 		case "ibb-listen-noaccept":
-			w.ibbh.Listen(w.sess)
+			w.lst, w.lstOpen = w.ibbh.Listen(w.sess), true
+			w.note("ALListen")
 			w.stMu.Lock()
 			w.ibbNoAccept = true
 			w.stMu.Unlock()
@@ -193,8 +198,10 @@ func (w *world) setup(ops []string) {
 				_ = w.rcpt.SendMessageElement(w.ctx, w.sess, nil, stanza.Message{ID: "r1", To: remoteJID, Type: stanza.ChatMessage})
 			}()
 		case "muc-join":
+			w.note("AMJoin")
 			go func() {
-				_, _ = w.mucc.Join(w.ctx, roomJID, w.sess)
+				ch, _ := w.mucc.Join(w.ctx, roomJID, w.sess)
+				w.mucCh <- ch
 			}()
 		}
 	}
@@ -208,7 +215,7 @@ func (w *world) setup(ops []string) {
 
 func runServe(c Case) Obs {
 	var o Obs
-	w, err := newWorld(c.Tap)
+	w, err := newWorld(c.Tap, c.Bare)
 	if err != nil {
 		o.Class = "panic"
 		o.fail("C09/harness/setup", err.Error())
@@ -218,6 +225,16 @@ func runServe(c Case) Obs {
 	w.setup(c.Setup)
 	stuck := false
 	for _, st := range c.Seq {
+		if strings.HasPrefix(st, "@") {
+			if !w.op(st) {
+				stuck = true
+				break
+			}
+			continue
+		}
+		if c.Bare {
+			st = strings.ReplaceAll(st, "me@example.net/res", "me@example.net")
+		}
 		taken, served := w.send([]byte(st))
 		if served {
 			break
@@ -227,12 +244,14 @@ func runServe(c Case) Obs {
 			break
 		}
 	}
-	if !stuck {
-		// the input ends: with or without the closing stream tag, the
+	{
+		// the input ends (also when an operation's barrier got no answer: Serve may
+		// be rightly waiting for the rest of an element; a Serve that is parked in
+		// a handler stays parked): with or without the closing stream tag, the
 		// connection is closed (an unterminated comment, processing instruction
 		// or attribute value in the input would otherwise swallow the tag and
 		// leave Serve rightly waiting for more)
-		if c.End != "eof" {
+		if c.End != "eof" && !stuck {
 			w.send([]byte("</stream:stream>"))
 			w.waitServe(time.Second) // not an oracle: only spares the normal case a broken pipe
 		}
@@ -240,7 +259,7 @@ func runServe(c Case) Obs {
 	}
 	wait := watchdog
 	if stuck {
-		wait = time.Second // the watchdog has already expired once, in the write
+		wait = 3 * time.Second // the watchdog has already expired once, in the write or in a barrier
 	}
 	returned := w.waitServe(wait)
 	switch {
@@ -297,7 +316,7 @@ func coqEnv(e envT) string {
 		}
 		sb.WriteString(hx.CoqBytes([]byte(id)))
 	}
-	sb.WriteString("] " + hx.CoqBool(e.Ready) + " " + hx.CoqBytes([]byte(e.Type)) + " " + hx.CoqBool(e.OK) + ")")
+	sb.WriteString("] " + hx.CoqBool(e.Ready) + " " + hx.CoqBytes([]byte(e.Type)) + " " + hx.CoqBool(e.OK) + " " + hx.CoqBool(e.Full) + " [" + strings.Join(e.Hist, "; ") + "])")
 	return sb.String()
 }
 
@@ -454,7 +473,7 @@ func runHelper(c Case) Obs {
 		o.fail("C09/harness/setup", "unknown helper "+c.Helper)
 		return o
 	}
-	w, err := newWorld(false)
+	w, err := newWorld(false, c.Bare)
 	if err != nil {
 		o.fail("C09/harness/setup", err.Error())
 		return o
